@@ -365,7 +365,7 @@ pub fn d2_object(h: &HitObject) -> bool {
     }
 }
 
-/// D18: no explicit length and a computed curve longer than the decoder's length limit
+/// D20: no explicit length and a computed curve longer than the decoder's length limit
 pub fn d18_object(h: &HitObject) -> bool {
     match &h.kind {
         HitObjectKind::Slider(s) => {
@@ -384,7 +384,7 @@ pub fn lost_class(h: &HitObject) -> &'static str {
     if d2_object(h) {
         "D2"
     } else if d18_object(h) {
-        "D18"
+        "D20"
     } else {
         ""
     }
